@@ -77,6 +77,7 @@ type Contract struct {
 	Trusted     bool             // contract assumed, body not checked (listed in evidence)
 	Loops       map[int]LoopSpec // loop ordinal (by header block index order) -> spec
 	Callbacks   map[string]string // parameter name -> ghost set name
+	Reveal      []string
 	Traverses   []Traverse
 	Except      []string
 	Inline      []string         // callee name suffixes that must be inlined regardless of size
@@ -123,6 +124,9 @@ type Engine struct {
 	curFrame    *frame
 	paramSyms   []paramSym
 	rootPre     *State
+	heapAlias   map[string]string
+	readLog     map[string]bool   // when non-nil, heapByName records the heaps it is asked for
+	opaqueSig   map[string]string // opaque predicate -> declared uninterpreted symbol
 	derivedCache map[*Contract][2][]Clause
 	bitsSyms    map[string]string // float parameter term -> symbol holding its bit pattern (math.Float32bits)
 }
@@ -130,6 +134,7 @@ type Engine struct {
 type predDef struct {
 	params []string
 	body   string
+	opaque bool
 }
 
 // State maps heap names to their current SMT term. A heap that is not in the
@@ -240,6 +245,26 @@ func (e *Engine) heapName(cellT types.Type, backing bool) (string, string) {
 	return "H_" + mangle(cellT.String()), fmt.Sprintf("(Array Int %s)", e.sc.sortOf(cellT))
 }
 
+// Locations are abstract and numbered in allocation order. The k-th allocation
+// the engine sees is alloc0 + k*allocGap; allocations it does not see (inside
+// havocked or contract-summarised callees, in earlier loop iterations) lie in
+// the gaps. A pointer or slice base read from memory when the counter is K is
+// therefore below alloc0 + (K+1)*allocGap: it cannot be a later allocation.
+const allocGap = 1048576
+
+func (e *Engine) nextLoc() string {
+	e.allocN++
+	return fmt.Sprintf("(+ alloc0 %d)", e.allocN*allocGap)
+}
+
+// tick starts a new allocation epoch (loop header, call): unseen allocations
+// made before this point are older than every allocation made after it.
+func (e *Engine) tick() { e.allocN++ }
+
+func (e *Engine) locBound(term string) string {
+	return fmt.Sprintf("(< %s (+ alloc0 %d))", term, (e.allocN+1)*allocGap)
+}
+
 func (e *Engine) declOnce(name, sort string) {
 	if e.declared == nil {
 		e.declared = map[string]bool{}
@@ -286,28 +311,42 @@ func epochTerm(n string, epoch int) string {
 	return fmt.Sprintf("|%s@e%d|", n, epoch)
 }
 
-// knownHeap makes sure the heap called n (as written in an assigns clause) has a
-// registered sort, by searching the basic types and the module's named types.
-func (e *Engine) knownHeap(n string) bool {
+// canonHeap resolves a heap name as written in an assigns clause ("HA_uint8",
+// "HA_Token", "H_Writer" - short type names are accepted) to the engine's
+// canonical heap name and registers its sort. ok is false for unknown names.
+func (e *Engine) canonHeap(n string) (string, bool) {
 	if _, ok := e.hsort[n]; ok {
-		return true
+		return n, true
 	}
-	try := func(t types.Type) bool {
+	if e.heapAlias == nil {
+		e.heapAlias = map[string]string{}
+	}
+	if c, ok := e.heapAlias[n]; ok {
+		return c, true
+	}
+	try := func(t types.Type) (string, bool) {
 		for _, backing := range []bool{false, true} {
-			if hn, _ := e.heapNameOnly(t, backing); hn == n {
+			hn, _ := e.heapNameOnly(t, backing)
+			pre := "H_"
+			if backing {
+				pre = "HA_"
+			}
+			short := pre + mangle(typeShort(t))
+			if hn == n || short == n {
 				_, hs := e.heapName(t, backing)
-				e.hsort[n] = hs
-				return true
+				e.hsort[hn] = hs
+				e.heapAlias[n] = hn
+				return hn, true
 			}
 		}
-		return false
+		return "", false
 	}
 	for _, b := range types.Typ {
 		if b.Kind() == types.Invalid || b.Info()&types.IsUntyped != 0 {
 			continue
 		}
-		if try(b) {
-			return true
+		if c, ok := try(b); ok {
+			return c, true
 		}
 	}
 	for _, p := range e.prog.AllPackages() {
@@ -320,13 +359,21 @@ func (e *Engine) knownHeap(n string) bool {
 				if named, ok := tn.Type().(*types.Named); ok && named.TypeParams().Len() > 0 {
 					continue
 				}
-				if try(tn.Type()) || try(types.NewPointer(tn.Type())) {
-					return true
+				if c, ok := try(tn.Type()); ok {
+					return c, true
+				}
+				if c, ok := try(types.NewPointer(tn.Type())); ok {
+					return c, true
 				}
 			}
 		}
 	}
-	return false
+	return "", false
+}
+
+func (e *Engine) knownHeap(n string) bool {
+	_, ok := e.canonHeap(n)
+	return ok
 }
 
 func (e *Engine) heapNameOnly(cellT types.Type, backing bool) (string, string) {
@@ -338,6 +385,9 @@ func (e *Engine) heapNameOnly(cellT types.Type, backing bool) (string, string) {
 }
 
 func (e *Engine) heapByName(st *State, n string) string {
+	if e.readLog != nil {
+		e.readLog[n] = true
+	}
 	if t, ok := st.heaps[n]; ok {
 		return t
 	}
@@ -454,8 +504,7 @@ func (e *Engine) store(st *State, a *Addr, v string) {
 }
 
 func (e *Engine) alloc(st *State, cellT types.Type, backing bool, init string) string {
-	e.allocN++
-	loc := fmt.Sprintf("(+ alloc0 %d)", e.allocN)
+	loc := e.nextLoc()
 	h := e.heapTerm(st, cellT, backing)
 	n, srt := e.heapName(cellT, backing)
 	st.heaps[n] = e.define(n, srt, fmt.Sprintf("(store %s %s %s)", h, loc, init))
